@@ -402,6 +402,115 @@ def check_program(files, sites, mode=0):
 REGRESSION = [(24, 0), (551, 2), (8135, 0), (23963, 1)]
 
 
+def check_references(files, g: "Gen", rnd: random.Random, mode=0):
+    """references of declared variables and procedures: every use site the model binds to the declaration (under its
+    own spelling) is reported, every reported occurrence resolves to the declaration, and asking from another
+    occurrence gives the same set"""
+    from replay.harness import Workspace, session
+    by_decl = {}
+    for (f, ln, ch, want, note) in g.sites:
+        if want is not None and note in ("variable", "procedure", "internal procedure"):
+            by_decl.setdefault(want, []).append((f, ln, ch))
+    decls = {}
+    for m in g.mods:
+        for n, d in m.decls.items():
+            if d.kind in ("var", "proc") and (d.file, d.line) in by_decl:
+                decls[(d.file, d.line)] = d
+    picks = rnd.sample(sorted(decls), min(4, len(decls)))
+    if not picks:
+        return None, 0
+    ws = Workspace(files)
+    try:
+        order = list(files) if mode == 0 else (list(reversed(list(files))) if mode == 1 else [])
+        msgs = [{"jsonrpc": "2.0", "method": "textDocument/didOpen", "params": {"textDocument": {"uri": ws.uri(n)}}} for n in order]
+        rid = 100
+        plan = []
+        for key in picks:
+            d = decls[key]
+            line = files[d.file].split("\n")[d.line]
+            import re as _re
+            mm = _re.search(r"\b%s\b" % _re.escape(d.name), line, _re.I)
+            if not mm:
+                continue
+            rid += 1
+            plan.append((rid, key, d, mm.start() + 1))
+            msgs.append({"jsonrpc": "2.0", "id": rid, "method": "textDocument/references",
+                         "params": {"textDocument": {"uri": ws.uri(d.file)}, "position": {"line": d.line, "character": mm.start() + 1},
+                                    "context": {"includeDeclaration": True}}})
+        srv, out = session(ws, msgs)
+        by_id = {m["id"]: m for m in out if "id" in m}
+        follow, fplan = [], []
+        for rid, key, d, col in plan:
+            r = by_id.get(rid, {})
+            refs = sorted((x["uri"].rsplit("/", 1)[-1], x["range"]["start"]["line"], x["range"]["start"]["character"],
+                           x["range"]["end"]["character"]) for x in (r.get("result") or []))
+            have = {(f, ln) for f, ln, _, _ in refs}
+            for (f, ln, ch) in by_decl[key]:
+                text = files[f].split("\n")[ln]
+                spelled = text[ch - 1:ch - 1 + len(d.name)].lower() == d.name.lower() or text[ch:ch + len(d.name)].lower() == d.name.lower() \
+                    or d.name.lower() in text.lower()
+                if spelled and d.name.lower() in _re.findall(r"[a-z_]\w*", text.lower()) and (f, ln) not in have:
+                    return {"problem": "a use site bound to the declaration is not among its references", "entity": d.name,
+                            "declared_at": key, "use_site": (f, ln, text), "references": refs, "error": (r.get("error") or {}).get("message")}, len(plan)
+            for (f, ln, c0, c1) in refs:
+                text = files[f].split("\n")[ln]
+                if text[c0:c1].lower() != d.name.lower():
+                    return {"problem": "a reference range does not span the identifier", "entity": d.name, "range": (f, ln, c0, c1),
+                            "text_in_range": text[c0:c1], "line": text}, len(plan)
+            # ask again from the last reference; resolve every reference back to the declaration
+            if refs:
+                f, ln, c0, c1 = refs[-1]
+                srv.handle({"jsonrpc": "2.0", "id": 9000 + rid, "method": "textDocument/references",
+                            "params": {"textDocument": {"uri": ws.uri(f)}, "position": {"line": ln, "character": c0 + 1},
+                                       "context": {"includeDeclaration": True}}})
+                for (f2, ln2, c2, _) in refs:
+                    srv.handle({"jsonrpc": "2.0", "id": 20000 + len(fplan), "method": "textDocument/definition",
+                                "params": {"textDocument": {"uri": ws.uri(f2)}, "position": {"line": ln2, "character": c2 + 1}}})
+                    fplan.append((20000 + len(fplan), key, d, (f2, ln2, c2)))
+                follow.append((9000 + rid, key, d, refs, (f, ln, c0)))
+        from replay.harness import parse_out
+        more = {}
+        # srv.handle wrote into the same recording stream as the session
+        import io
+        rw = srv.conn.conn
+        for m in parse_out(rw.out):
+            if "id" in m:
+                more[m["id"]] = m
+        for rid2, key, d, refs, pos in follow:
+            r = more.get(rid2, {})
+            again = sorted((x["uri"].rsplit("/", 1)[-1], x["range"]["start"]["line"], x["range"]["start"]["character"],
+                            x["range"]["end"]["character"]) for x in (r.get("result") or []))
+            if again != refs:
+                return {"problem": "references differ depending on the occurrence they are asked from", "entity": d.name,
+                        "from_declaration": refs, "from_occurrence": pos, "returned": again}, len(plan)
+        for rid3, key, d, pos in fplan:
+            r = more.get(rid3, {})
+            res = r.get("result")
+            got = (res["uri"].rsplit("/", 1)[-1], res["range"]["start"]["line"]) if res else None
+            if got != key:
+                return {"problem": "a reported reference does not resolve to the declaration", "entity": d.name, "declared_at": key,
+                        "reference": pos, "line": files[pos[0]].split("\n")[pos[1]], "resolves_to": got}, len(plan)
+        return None, len(plan)
+    finally:
+        ws.close()
+
+
+def run_references(tier: str, seed: int):
+    n = ne = 0
+    for k in range(120 if tier == "thorough" else 40):
+        rnd = random.Random(seed * 7919 + 200000 + k)
+        g = Gen(random.Random(seed * 7919 + 200000 + k))
+        files, _ = g.generate()
+        n += 1
+        w, c = check_references(files, g, rnd, mode=k % 3)
+        ne += c
+        if w:
+            w["files"] = files
+            w["generator_seed"] = seed * 7919 + 200000 + k
+            return w, n, ne
+    return None, n, ne
+
+
 def run_completion(tier: str, seed: int):
     n = ns = 0
     for k in range(200 if tier == "thorough" else 60):
